@@ -476,7 +476,8 @@ func execC03(t *testing.T, c *Case) *Verdict {
 						oc := newOpCtx(0)
 						r.setRootOp(oc)
 						defer r.setRootOp(nil)
-						opts, _, _ := in2.buildEvalOpts(op.Opts, nil)
+						pin := time.Date(2020, 3, 7, 12, 0, 0, 0, time.UTC) // both executions see the same instant
+						opts, _, _ := in2.buildEvalOpts(op.Opts, &pin)
 						out := ""
 						func() {
 							defer func() {
